@@ -256,6 +256,7 @@ type UpItem struct {
 	RawHeader []byte // when set, sent instead of the encoded header
 	Data      []byte
 	CutAfter  int // when > 0: deliver only this many bytes of the (remaining) data, then end the connection
+	Before    func() // when set: called right before this item's header is sent (the transfer is waiting for it)
 	// filled in by the client
 	Action int
 	Offset int
@@ -278,6 +279,9 @@ func FolderUpload(srv *fixture.Server, addr string, ref []byte, items []UpItem) 
 	}
 	for i := range items {
 		it := &items[i]
+		if it.Before != nil {
+			it.Before()
+		}
 		hdr := it.RawHeader
 		if hdr == nil {
 			hdr = rc.FolderItem(it.IsFolder, it.Path...)
